@@ -7,3 +7,22 @@ chk("C01", "translation_validation",
     "Every accepted part of the 2181 bundled definitions and the 13 sub-routines: one z3 equivalence query per part between the RzIL text the real compiler emits and the C behaviour text under C11+QEMU semantics, with all register banks, immediates, pc and memory symbolic; unsat = equal for every initial state within the unroll bound (17, with unwinding obligations). Acceptance set must stay a superset of the committed baseline; rejected definitions must raise.",
     "Trusted: operand/plugin contract (DESIGN 1.1), my RzIL and C semantics, z3. UB states assumed away; float/plugin helpers uninterpreted.",
     "TV: SMT translation validation (z3 bit-vectors/arrays) of the real compiler's output", "DESIGN.md 3/C01")
+ENGINES[0]["serves_properties"] = ["C01", "C02", "C03", "C05", "C06", "C07", "C08", "C09", "C15", "C16", "C17"]
+ENGINES.append(dict(name="WF", path="/verif/vf/wf.py", serves_properties=["C10", "C11", "C12"],
+    kind_free_text="per emitted body: z3 sort-constraint problem over all subterms (C10) + ground declaration/ownership facts counted by an own front end of the emitted C text (C11, C12)"))
+chk("C10", "other",
+    "Every emitted body (whole accepted corpus, all sub-routine bodies, generated programs; both layouts) is turned into one z3 problem over sort variables (kind,width per subterm, one unknown sort per local/LET name) with RzIL's typing rule for every operator occurrence in every arm and loop body; sat = a consistent sorting exists, unsat core = violated rules. No path sampling: all subterms are constrained.",
+    "Trusted: my transcription of RzIL typing rules and of the plugin macros' signatures; operand widths from the behaviour's operand tokens. Cross-body clashes of local names (callee vs caller) are caught by the TV engine's inlined execution, not here.",
+    "WF: z3 sort-constraint solving over every subterm of the emitted effect", "DESIGN.md 1.4, 3/C10")
+chk("C11", "other",
+    "Own tokenizer/parser of the emitted C text requires declaration-with-initialiser statements and a final return, each identifier declared once and before use (or parameter / plugin constant / known macro), needs_hi/needs_pkt true whenever an independent tokenizer finds the identifier, sub-routine prologues declare what the body mentions, one getter per part, getter names unique corpus-wide; metadata predicates additionally decided symbolically (SHIM) when built. Enumerated over all accepted bodies in both layouts - ground facts, the solver adds no search here (stated in DESIGN 1.4).",
+    "Trusted: my C-dialect front end and the table of plugin macro names; the emitted text is never compiled against Rizin headers (not installed).",
+    "WF: exhaustive enumeration of emitted bodies with ground declaration/use constraints (no solver search)", "DESIGN.md 1.4, 3/C11")
+chk("C12", "other",
+    "Ownership counting on every emitted body in both layouts and on sub-routine bodies: each RzILOpPure variable has exactly one un-DUP'ed use and any further use inside DUP(...), each RzILOpEffect variable exactly one use, borrowed pure parameters at most one un-DUP'ed use, nothing initialised left unused. Enumerated over programs; ground constraints (no solver search).",
+    "Trusted: my front end's notion of a 'use' (textual occurrence of the C variable, DUP(...) marks duplication).",
+    "WF: exhaustive enumeration of emitted bodies with ownership counting constraints", "DESIGN.md 1.4, 3/C12")
+chk("C16", "translation_validation",
+    "Both CodeFormat layouts are compiled by two real Compiler instances for every accepted corpus part and family program; one z3 IL==IL query per part over all registers, memory, jump, slot-cancel and every non-temporary local, plus equal attribute lists and equal acceptance.",
+    "Trusted: RzIL semantics of vf/ilsem.py; unroll 17 with unwinding obligations.",
+    "TV: SMT equivalence of the two emitted effects (z3 bit-vectors/arrays)", "DESIGN.md 3/C16")
